@@ -477,11 +477,22 @@ type tStruct struct {
 	C []any          `json:"c"`
 	D map[string]any `json:"d"`
 	E *tStruct       `json:"e"`
-	X jsontext.Value `json:",unknown"`
+	X jsontext.Value `json:",embed"`
+}
+
+// tStruct2 keeps unknown members in a map fallback (tStruct keeps them as raw text).
+type tStruct2 struct {
+	A    int            `json:"a"`
+	Name string         `json:"name"`
+	Rest map[string]any `json:",embed"`
 }
 
 func newTarget(kind string) any {
 	switch kind {
+	case "struct2":
+		return new(tStruct2)
+	case "structs":
+		return new([]tStruct)
 	case "map":
 		return new(map[string]any)
 	case "struct":
@@ -781,7 +792,7 @@ func generate(w *run.W) {
 			}
 		}
 		for k := 0; k < 6; k++ {
-			w.Do("unmarshal", &umArgs{Input: in, Target: []string{"any", "map", "struct", "slice"}[r.IntN(4)], Seed: r.Uint64(), MaxN: 1 + r.IntN(40), ZeroP: r.IntN(10), EOFTog: r.IntN(2) == 0, Buffer: r.IntN(5) == 0})
+			w.Do("unmarshal", &umArgs{Input: in, Target: []string{"any", "map", "struct", "slice", "struct", "struct2", "structs"}[r.IntN(7)], Seed: r.Uint64(), MaxN: 1 + r.IntN(40), ZeroP: r.IntN(10), EOFTog: r.IntN(2) == 0, Buffer: r.IntN(5) == 0})
 		}
 	}
 }
